@@ -181,8 +181,9 @@ def run(ctx):
     TOL = Rat.sym('tol')
 
     def th_dd(it):
-        s1 = [it.construct('path.Line', Rat.csym('A%d' % k), Rat.csym('B%d' % k)) for k in range(2)]
-        s2 = [it.construct('path.Line', Rat.csym('C0'), Rat.csym('D0'))]
+        cz = lambda x, y: Rat.const(x) + Rat.const(1j) * Rat.const(y)
+        s1 = [it.construct('path.Line', cz(0, 0), cz(10, 10)), it.construct('path.Line', cz(10, 10), cz(20, 0))]     # concrete, overlapping
+        s2 = [it.construct('path.Line', cz(0, 10), cz(20, 5))]
         p1, p2 = it.construct('path.Path', *s1), it.construct('path.Path', *s2)
         it.call_hooks['path.Line.intersect'] = lambda it2, a, k: [(Rat.sym('t1_%d' % [i for i, x in enumerate(s1) if x is a[0]][0]), Rat.sym('t2'))]
         it.call_hooks['path.Path.t2T'] = lambda it2, a, k: Rat.sym('T')
